@@ -42,18 +42,18 @@ func lemmaPTSDecodersAgree(b []byte) bool { return ExtractTime(b) == gots.Extrac
 //@   modifies nothing
 
 //@ func CheckLength(byteArray []byte, name string, min int) bool
-//@   props C11
+//@   props C11 C05
 //@   ensures result == (len(byteArray) >= min)
 //@   modifies nothing
 
 //@ func (pes *pESHeader) optionalFieldsExist() bool
-//@   props C11
+//@   props C11 C05
 //@   requires pes != nil
 //@   ensures result == !specNoOptionalHeader(pes.streamId)
 //@   modifies nothing
 
 //@ func NewPESHeader(pesBytes []byte) (h PESHeader, err error)
-//@   props C11 C04
+//@   props C11 C04 C05
 //@   ensures pesOf(h) != nil && fresh(pesOf(h))
 //@   ensures (err == nil) == (len(pesBytes) >= 7)
 //@   ensures len(pesBytes) >= 7 ==> pesOf(h).packetStartCodePrefix == uint32(pesBytes[0])*65536+uint32(pesBytes[1])*256+uint32(pesBytes[2])
@@ -69,49 +69,49 @@ func lemmaPTSDecodersAgree(b []byte) bool { return ExtractTime(b) == gots.Extrac
 //@   modifies nothing
 
 //@ func (pes *pESHeader) PacketStartCodePrefix() uint32
-//@   props C11
+//@   props C11 C05
 //@   requires pes != nil
 //@   ensures result == pes.packetStartCodePrefix
 //@   modifies nothing
 
 //@ func (pes *pESHeader) StreamId() uint8
-//@   props C11
+//@   props C11 C05
 //@   requires pes != nil
 //@   ensures result == pes.streamId
 //@   modifies nothing
 
 //@ func (pes *pESHeader) PTS() uint64
-//@   props C11 C04
+//@   props C11 C04 C05
 //@   requires pes != nil
 //@   ensures result == pes.pts
 //@   modifies nothing
 
 //@ func (pes *pESHeader) DTS() uint64
-//@   props C11 C04
+//@   props C11 C04 C05
 //@   requires pes != nil
 //@   ensures result == pes.dts
 //@   modifies nothing
 
 //@ func (pes *pESHeader) Data() []byte
-//@   props C11
+//@   props C11 C05
 //@   requires pes != nil
 //@   ensures len(result) == len(pes.data) && (len(result) > 0 ==> &result[0] == &pes.data[0]) && (pes.data == nil) == (result == nil)
 //@   modifies nothing
 
 //@ func (pes *pESHeader) HasPTS() bool
-//@   props C11
+//@   props C11 C05
 //@   requires pes != nil
 //@   ensures result == (pes.ptsDtsIndicator/2%2 == 1)
 //@   modifies nothing
 
 //@ func (pes *pESHeader) HasDTS() bool
-//@   props C11
+//@   props C11 C05
 //@   requires pes != nil
 //@   ensures result == (pes.ptsDtsIndicator == 3)
 //@   modifies nothing
 
 //@ func (pes *pESHeader) DataAligned() bool
-//@   props C11
+//@   props C11 C05
 //@   requires pes != nil
 //@   ensures result == pes.dataAlignment
 //@   modifies nothing
@@ -148,7 +148,7 @@ func lemmaPESWellFormed(b []byte) bool {
 //@   modifies nothing
 
 //@ func AlignedPUSI(pkt *packet.Packet) (data []byte, ok bool)
-//@   props C11
+//@   props C11 C05
 //@   requires pkt != nil
 //@   ensures !specPESStart(pkt) ==> data == nil && !ok
 //@   ensures specPESStart(pkt) && specPESNoOpt(pkt) ==> ok == ((pkt[specPL(pkt)+6]/4)%2 == 1)
